@@ -21,7 +21,7 @@ def parse_case(case):
         else: raise ValueError(s)
     return ops
 
-EV_RE = re.compile(r'(acq|fail|ret|busy|stale)\(([^)]*)\)')
+EV_RE = re.compile(r'(acq|fail|ret|busy|stale|ub)\(([^)]*)\)')
 ENT_RE = re.compile(r'(\d+):(\d+)#(\d+|\?)\{([^}]*)\}')
 def parse_out(line):
     segs = []
@@ -88,6 +88,11 @@ def judge(case, out):
             elif e[0] == 'stale':
                 if hid in held: return ('stale-mismatch', '%s: handle #%d is held by the user view but the node is gone' % (where, hid))
                 own_done = True
+            elif e[0] == 'ub':
+                # second empty range at one point: std::set precondition violated, call not executed (F3)
+                if e[1] == t and issued is not None and e[1] not in blocked: issued = None; own_done = True
+                elif e[1] in blocked: blocked.pop(e[1])
+                else: return ('protocol', '%s: ub(%d) without a request' % (where, e[1]))
             elif e[0] == 'ret':
                 own_done = True
                 if e[1] != t: return ('protocol', '%s: ret by thread %d' % (where, e[1]))
